@@ -35,7 +35,7 @@ Theorem C12_first_handleable :
                 Forall (fun x => try_handle s x = NotNow) l1.
 Proof. exact scan_hit. Qed.
 
-(* refines_fifo + retire_exact (at the moment of retirement): a handled response is charged
+(* refines_fifo (+ retirement at the moment it happens): a handled response is charged
    to the OLDEST outstanding request of its (remote, purpose, role), as pair number = pairs
    that request has consumed so far; the request leaves its queue exactly when that makes
    its number of pairs *)
@@ -49,16 +49,15 @@ Theorem C12_refines_fifo :
     ((count (q_id q) (log s2) = q_tot q)%nat <-> ~ exists q', In q' (reqs s2) /\ q_id q' = q_id q).
 Proof. exact hit_charges_head. Qed.
 
-(* full statement of retirement, including persistence: once a request has left its queue
-   the number of responses charged to it stays its number of pairs for ever.  Proved above
-   only at the moment of retirement (C12_refines_fifo, last clause) and, for queued
-   requests, as count + left = tot with left >= 1 (C12_counts); the persistence clause needs
-   one more invariant over the ghost list `issued` and is not proved here. *)
-Definition C12_retire_exact_full : Prop :=
+(* retire_exact: after any event list, a request that was issued and is no longer
+   outstanding has consumed exactly its number of pairs (and this persists); an outstanding
+   one has consumed tot - left < tot *)
+Theorem C12_retire_exact :
   forall nd n es s id tot, run (init_state nd n) es = Some s -> In (id, tot) (issued s) ->
   (forall q, In q (reqs s) -> q_id q <> id) -> count id (log s) = tot.
+Proof. exact retire_exact. Qed.
 
-Theorem C12_retire_exact_partial :
+Theorem C12_outstanding_not_complete :
   forall nd n es s, run (init_state nd n) es = Some s ->
   Forall (fun q => (1 <= q_left q <= q_tot q)%nat /\ (count (q_id q) (log s) + q_left q = q_tot q)%nat) (reqs s).
 Proof. intros nd n es s H. exact (proj1 (proj2 (proj2 (counts_ok_run nd n es s H)))). Qed.
@@ -148,7 +147,8 @@ Print Assumptions C12_exactly_once.
 Print Assumptions C12_counts.
 Print Assumptions C12_first_handleable.
 Print Assumptions C12_refines_fifo.
-Print Assumptions C12_retire_exact_partial.
+Print Assumptions C12_retire_exact.
+Print Assumptions C12_outstanding_not_complete.
 Print Assumptions C12_slice_qubit_no_overwrite.
 Print Assumptions C12_deferred_only_when_busy.
 Print Assumptions C12_drain_quiescent.
